@@ -10,18 +10,36 @@ RULE = ('exhaustive grid: 1..3 fields (4..5 sampled) x {slots, order, kw_only} x
         '- mutable, hashable by identity, compared by identity - directly and inside tuples / frozensets / lists / dicts (as values and as keys) / sets / each other, '
         'aliased sub-objects, None/int/str) are drawn from the rng; a directed family puts every such hashable-but-mutable value shape into every field '
         'position x options x shapes x subsets x both methods; near misses: unknown keyword, init=False keyword, replacement by the original object / by another '
-        "field's object, positional / missing / surplus constructor arguments, invalid class definitions; attribute cases: set / del of "
+        "field's object, positional / missing / surplus constructor arguments, invalid class definitions; "
+        'values also hold instances of @frozen_dataclass classes (three helper classes defined with the real decorator in every generated module: default options / '
+        'slots=True / kw_only=False, and - where the class chain allows it - the class under test itself), nested in each other to depth >= 2, holding lists / dicts / sets / '
+        'objects, as field value, inside tuples / lists / dict values, as plain defaults, and (the hashable ones) as dict keys / set and frozenset members; a second directed '
+        'family puts every such shape (Z(list), Z(dict), Z(set), Z(Z(list)) over two classes, depth 3 over three classes, (Z(list),), [Z(dict)], {k: Z(set)}, Z(object holding a '
+        'list), one instance referenced twice, hashable Z as dict key / in a frozenset / in a set, Z of atoms, an instance of the class under test itself) into every field '
+        "position x options x shapes x every subset of fields to replace x both methods; attribute cases: set / del of "
         'every field, of init=False fields, of new names, set-then-del sequences; comparison cases: equal twin, one field changed at '
-        'each position, other class of the hierarchy, unhashable / incomparable values.  non-trivial = copy with a mutable field value, '
+        'each position, other class of the hierarchy, unhashable / incomparable values, frozen instances as field values (each comparison first hashes and drops a '
+        'short-lived instance of the same class with other field values).  non-trivial = copy with a mutable field value, '
         'or any attribute / comparison case')
 EXHAUSTIVE = {'quick': True, 'thorough': True}
 ASSUMPTIONS = ['field annotations are typing.Any and type_safe validation is observed only as a journal event (the type-checking half is C10)',
                'values are built from None / int / str / tuple / list / dict / set / frozenset / instances of one plain user class without __eq__, __hash__, '
-               '__slots__, __deepcopy__ (no floats, bools); dict keys and set members are hashable values (atoms, tuples, frozensets, such instances)',
+               '__slots__, __deepcopy__ / instances of @frozen_dataclass classes (no floats, bools); dict keys and set members are hashable values (atoms, tuples, '
+               'frozensets, instances of the plain class, frozen instances whose fields are hashable)',
+               'nested frozen-dataclass instances are instances of classes decorated with the decorator under test: three helper classes (1 field default options, 2 fields '
+               'slots=True, 2 fields kw_only=False; all fields Any, required, compare=True, order=False), and the class under test itself only when no decorated layer of its '
+               'chain has order=True and every field is an init field with compare=True (then the model\'s description of such an instance - compared by class and all fields, '
+               'never ordered, built by passing every field - is exact); a frozen instance is not counted as a mutable object itself (object.__setattr__ tricks are out of '
+               'scope), everything reachable through its fields is',
                '"equal to the original\'s value" for an un-replaced field of deep_copy_with is read as: the same value up to object identities (same shape, same '
                'classes, equal atoms) - Python\'s == wherever no instance with identity equality is involved (theorem seq_veq_of_noObj), and the only possible reading beyond',
                'user __post_init__ hooks only journal; factories return fresh structural copies of a literal']
-TRUSTED = ['copy.deepcopy is modelled without its memo: aliasing *inside* one field value is not claimed to be preserved, only that the copy is structurally equal and shares no mutable node with the original',
+TRUSTED = ['copy.deepcopy of an instance of a frozen dataclass is modelled as "a new instance of the same class whose fields are deep copies" (object.__reduce_ex__ / '
+           'copyreg.__newobj__ / copy._reconstruct, with the __getstate__ / __setstate__ that dataclasses adds under slots=True) as long as the translator finds no copy-protocol '
+           'special method (__deepcopy__, __copy__, __reduce__, __reduce_ex__, __getstate__, __setstate__, __getnewargs__, __getnewargs_ex__, __replace__) installed by the '
+           'decorator (generated fact copyProtocolHooks = [], lemma cfg_no_copy_hooks); with such a hook the model reads deepcopy as returning the instance itself, the heap '
+           'theorems no longer check, and the directed family looks for the concrete shared object',
+           'copy.deepcopy is modelled without its memo: aliasing *inside* one field value is not claimed to be preserved, only that the copy is structurally equal and shares no mutable node with the original',
            'CPython dataclasses (_process_class, _init_fn, _frozen_get_del_attr, _cmp_fn, _hash_add, _add_slots, replace) are transcribed into the model and exercised by this correspondence check, not verified',
            '"original unchanged" holds in the functional model because the copy paths only read the receiver; the translator checks that the method bodies contain no write to self, and the correspondence check compares identities and deep snapshots of the original before / after']
 
@@ -36,11 +54,22 @@ NEW = 100        # names >= NEW are not fields ("zzz<n>")
 # ------------------------------------------------------------------ values (JSON terms with identities)
 
 
+# value terms: ['a'] None | ['i', n] | ['s', [code points]] | ['t'|'l'|'d'|'e'|'f'|'o', id, [items]] tuple / list / dict (flattened
+# k0, v0, k1, v1, …) / set / frozenset / instance of the plain class | ['z', id, [items], cid] instance of the @frozen_dataclass class
+# `cid` with the field values `items` in field order: cid 10..12 = helper classes Z10..Z12 defined in every generated module,
+# cid 0..4 = the class under test itself (head class K<cid> of the case).  Every helper keeps what follows the items (j[3:]).
+
+ZHELP = {10: ('Z10', 1), 11: ('Z11', 2), 12: ('Z12', 2)}      # cid -> (class name, number of fields g0, g1, …)
+ZSOURCE = ['@frozen_dataclass', 'class Z10:', '    g0: Any', '',
+           '@frozen_dataclass(slots=True)', 'class Z11:', '    g0: Any', '    g1: Any', '',
+           '@frozen_dataclass(kw_only=False)', 'class Z12:', '    g0: Any', '    g1: Any', '']
+
+
 def strip_ids(j):
     t = j[0]
     if t in 'ais':
         return j
-    return [t, [strip_ids(x) for x in j[2]]]
+    return [t, [strip_ids(x) for x in j[2]]] + j[3:]
 
 
 def vkey(j):
@@ -50,8 +79,9 @@ def vkey(j):
 class Vals:
     """generator of value terms; every tuple / list / dict / set gets a fresh identity; earlier mutable nodes may be re-used (aliasing)"""
 
-    def __init__(self, rng, start):
-        self.r, self.n, self.pool, self.opool = rng, start, [], []
+    def __init__(self, rng, start, zself=None):
+        # zself = (cid, number of fields) when instances of the class under test itself may be nested in values (see zself_of)
+        self.r, self.n, self.pool, self.opool, self.zpool, self.zself = rng, start, [], [], [], zself
 
     def fresh(self):
         self.n += 1
@@ -75,14 +105,33 @@ class Vals:
         self.opool.append(v)
         return v
 
+    def frozen(self, depth, gen, allow_self=True, reuse=False):
+        """instance of a @frozen_dataclass class (a helper class, now and then the class under test itself) whose field values come
+        from `gen(depth)`: hashable iff all of them are; never mutable itself, whatever it holds"""
+        r = self.r
+        if reuse and self.zpool and r.random() < 0.12:
+            return r.choice(self.zpool)
+        if allow_self and self.zself and r.random() < 0.25:
+            cid, ar = self.zself
+        else:
+            cid = r.choice(sorted(ZHELP))
+            ar = ZHELP[cid][1]
+        ident = self.fresh()
+        v = ['z', ident, [gen(depth - 1) if (i < 2 or r.random() < 0.3) else self.atom() for i in range(ar)], cid]
+        if reuse:
+            self.zpool.append(v)
+        return v
+
     def hashable(self, depth=1):
         k = self.r.random()
-        if depth <= 0 or k < 0.55:
+        if depth <= 0 or k < 0.50:
             return self.atom()
-        if k < 0.75:
+        if k < 0.68:
             return self.obj(depth)
-        if k < 0.85:
+        if k < 0.78:
             return ['f', self.fresh(), self.uniq([self.hashable(depth - 1) for _ in range(self.r.randint(0, 3))])]
+        if k < 0.88:
+            return self.frozen(depth, self.hashable)
         return ['t', self.fresh(), [self.hashable(depth - 1) for _ in range(self.r.randint(1, 3))]]
 
     def uniq(self, items):
@@ -117,26 +166,32 @@ class Vals:
         if depth <= 0:
             return self.atom()
         k = r.random()
-        if k < 0.22:
+        if k < 0.20:
             return self.atom()
-        if k < 0.36:
+        if k < 0.33:
             return ['t', self.fresh(), [self.value(depth - 1) for _ in range(r.randint(1, 3))]]
-        if k < 0.50:
+        if k < 0.45:
             return self.obj(depth)
-        if k < 0.57:
+        if k < 0.52:
             return ['f', self.fresh(), self.uniq([self.hashable(depth - 1) for _ in range(r.randint(0, 3))])]
+        if k < 0.66:
+            return self.frozen(depth, self.value, reuse=True)
         return self.mutable(depth)
 
     def immutable_default(self):
-        """a plain default must be hashable-by-class: atom, tuple (which may contain a list), frozenset or an instance of the plain class"""
+        """a plain default must be hashable-by-class: atom, tuple (which may contain a list), frozenset, an instance of the plain class or
+        an instance of a frozen helper class (accepted by `dataclasses` whatever its fields hold — also a list: the *class* has a `__hash__`;
+        never the class under test itself, which does not exist yet when its defaults are evaluated)"""
         r = self.r
         k = r.random()
-        if k < 0.5:
+        if k < 0.45:
             return self.atom()
-        if k < 0.65:
+        if k < 0.58:
             return ['o', self.fresh(), [self.value(1) for _ in range(r.randint(0, 2))]]
-        if k < 0.72:
+        if k < 0.65:
             return ['f', self.fresh(), self.uniq([self.hashable(1) for _ in range(r.randint(0, 2))])]
+        if k < 0.80:
+            return self.frozen(2, self.value, allow_self=False)
         return ['t', self.fresh(), [self.value(1) for _ in range(r.randint(1, 2))]]
 
     def template(self, depth=2):
@@ -162,7 +217,7 @@ class Vals:
         """structurally equal term with fresh identities"""
         if j[0] in 'ais':
             return j
-        return [j[0], self.fresh(), [self.reid(x) for x in j[2]]]
+        return [j[0], self.fresh(), [self.reid(x) for x in j[2]]] + j[3:]
 
     def comparable(self, depth=2, hashable=False):
         """values on which `<` is mostly defined: ints / strs / lists / tuples of them (hashable: no list / set)"""
@@ -171,6 +226,9 @@ class Vals:
         if depth <= 0 or k < 0.5:
             return ['i', r.choice([0, 1, 2, 3])] if r.random() < 0.75 else ['s', [ord(c) for c in r.choice(['a', 'b', 'ab'])]]
         if k < 0.55:
+            if r.random() < 0.3:        # frozen instances: equal iff same class and equal fields, never ordered (order=False)
+                return ['z', self.fresh(), [['i', r.choice([0, 1])]], 10] if r.random() < 0.6 else \
+                    ['z', self.fresh(), [['i', r.choice([0, 1])], ['i', 0]], r.choice([11, 12])]
             return ['o', self.fresh(), [['i', r.choice([0, 1])]]] if r.random() < 0.6 else \
                 ['f', self.fresh(), self.uniq([['i', r.choice([0, 1, 2])] for _ in range(r.randint(0, 3))])]
         if k < 0.75 or hashable:
@@ -192,6 +250,12 @@ class Vals:
         if t == 's':
             return ['s', r.choice([j[1] + [97], j[1][:-1], [98] + j[1]])]
         items = [self.reid(x) for x in j[2]]
+        if t == 'z':                    # the number of fields is fixed by the class: change one of them, or the class
+            if j[3] in (11, 12) and r.random() < 0.15:
+                return ['z', self.fresh(), items, 23 - j[3]]
+            i = r.randrange(len(items))
+            items[i] = self.mutate(items[i])
+            return ['z', self.fresh(), items, j[3]]
         if t == 'd':
             if len(items) >= 2 and r.random() < 0.7:
                 items[1] = self.mutate(items[1])
@@ -243,10 +307,43 @@ def build(j, memo):
         v = Plain()
         for i, x in enumerate(items):
             setattr(v, f'a{i}', x)
+    elif t == 'z':
+        v = make_frozen(j[3], items, memo)
     else:
         v = set(items)
     memo[j[1]] = v
     return v
+
+
+def make_frozen(cid, items, memo):
+    """a real instance of a @frozen_dataclass class of the generated module the case runs in (`memo['__mod__']`)"""
+    mod = memo['__mod__']
+    if cid in ZHELP:
+        k = getattr(mod, ZHELP[cid][0])
+        if cid == 12:
+            return k(*items)                                            # kw_only=False: positionally
+        return k(**{f'g{i}': x for i, x in enumerate(items)})
+    names = [fname(n) for (n, f, kwo) in resolved(memo['__cls__'])]      # the class under test: every field is an init field
+    assert len(names) == len(items) and cid == memo['__cls__'][0]['cid']
+    return getattr(mod, f'K{cid}')(**dict(zip(names, items)))
+
+
+def is_frozen_inst(v):
+    return dataclasses.is_dataclass(v) and not isinstance(v, type)
+
+
+def frozen_items(v):
+    """what an instance of a frozen dataclass holds: its field values in field order, then any other instance attribute"""
+    names, out = set(), []
+    for f in dataclasses.fields(v):
+        names.add(f.name)
+        x = getattr(v, f.name, _UNSET)
+        if x is not _UNSET:
+            out.append(x)
+    for k, x in (getattr(v, '__dict__', None) or {}).items():
+        if k not in names:
+            out.append(x)
+    return out
 
 
 class Plain:
@@ -296,6 +393,18 @@ def resolved(cls):
             else:
                 out.append(e)
     return out
+
+
+def zself_of(cls):
+    """(cid, number of fields) if instances of the class under test itself may be nested in field values: the model describes such an
+    instance as a `Kind.fz` node — compared by (class, all fields), never ordered, built by passing every field — which is right iff no
+    decorated layer has order=True and every field is an init field with compare=True"""
+    fs = resolved(cls)
+    if not fs or any(l['dec'] and l['order'] for l in cls):
+        return None
+    if any((not f['init']) or (not f['cmp']) for (_, f, _) in fs):
+        return None
+    return (cls[0]['cid'], len(fs))
 
 
 SHAPES = ['single', 'decosub', 'plainsub', 'plain_of_deco', 'deco_of_plain', 'deco_of_deco']
@@ -374,7 +483,7 @@ def copy_cases(rng, v0, cls, shape_tag, all_subsets=True, extra_near=True):
     base_n = v0.n
     for sub in subsets:
         for deep in (False, True):
-            v = Vals(rng, base_n)
+            v = Vals(rng, base_n, zself_of(cls))
             ctor = ctor_for(rng, v, cls)
             kw = [[n, v.value(3)] for n in sub]
             out.append(finish(cls, ctor, ['copy', deep, kw], v, f'copy/{shape_tag}'))
@@ -384,11 +493,11 @@ def copy_cases(rng, v0, cls, shape_tag, all_subsets=True, extra_near=True):
             for names in ([NEW], noninit[:1], noninit[:1] + [NEW], init[:1] + [NEW]):
                 if not names:
                     continue
-                v = Vals(rng, base_n)
+                v = Vals(rng, base_n, zself_of(cls))
                 ctor = ctor_for(rng, v, cls)
                 out.append(finish(cls, ctor, ['copy', deep, [[n, v.value(2)] for n in names]], v, f'copy-badkw/{shape_tag}'))
             # replacement by the original's own object, or by another field's object (aliasing through kw)
-            v = Vals(rng, base_n)
+            v = Vals(rng, base_n, zself_of(cls))
             ctor = ctor_for(rng, v, cls, omit_defaults=False)
             given = ctor['kw']
             if given:
@@ -405,23 +514,23 @@ def ctor_near_cases(rng, v0, cls, shape_tag):
     std = [x for x in fs if not x[2]]
     base_n = v0.n
     for npos in sorted({0, 1, len(std), len(std) + 1}):
-        v = Vals(rng, base_n)
+        v = Vals(rng, base_n, zself_of(cls))
         ctor = ctor_for(rng, v, cls, npos=min(npos, len(std)))
         if npos > len(std):
             ctor['pos'].append(v.atom())           # one positional too many
         out.append(finish(cls, ctor, ['copy', bool(npos % 2), []], v, f'ctor-pos{npos}/{shape_tag}'))
     if fs:
-        v = Vals(rng, base_n)
+        v = Vals(rng, base_n, zself_of(cls))
         ctor = ctor_for(rng, v, cls, omit_defaults=False)
         drop = rng.choice(fs)[0]
         ctor['kw'] = [p for p in ctor['kw'] if p[0] != drop]     # missing argument (an error iff it has no default)
         out.append(finish(cls, ctor, ['copy', True, []], v, f'ctor-missing/{shape_tag}'))
-        v = Vals(rng, base_n)
+        v = Vals(rng, base_n, zself_of(cls))
         ctor = ctor_for(rng, v, cls)
         ctor['kw'].append([NEW + 1, v.atom()])                   # unexpected keyword
         out.append(finish(cls, ctor, ['copy', False, []], v, f'ctor-unexpected/{shape_tag}'))
         if std:
-            v = Vals(rng, base_n)
+            v = Vals(rng, base_n, zself_of(cls))
             ctor = ctor_for(rng, v, cls, npos=1, omit_defaults=False)
             ctor['kw'].append([std[0][0], v.atom()])             # multiple values for an argument
             out.append(finish(cls, ctor, ['copy', False, []], v, f'ctor-dup/{shape_tag}'))
@@ -439,7 +548,7 @@ def attr_cases(rng, v0, cls, shape_tag):
     seqs += [[['set', NEW]], [['del', NEW]], [['set', NEW], ['del', NEW]], [['set', NEW], ['set', NEW], ['del', NEW], ['del', NEW]],
              [['set', NEW], ['set', NEW + 1], ['del', NEW + 1], ['set', fs[0][0] if fs else NEW]]]
     for s in seqs:
-        v = Vals(rng, base_n)
+        v = Vals(rng, base_n, zself_of(cls))
         ctor = ctor_for(rng, v, cls)
         ops = [[o[0], o[1], v.value(2)] if o[0] == 'set' else o for o in s]
         out.append(finish(cls, ctor, ['attr', ops], v, f'attr/{shape_tag}'))
@@ -466,12 +575,12 @@ def cmp_cases(rng, v0, cls, shape_tag, comparable):
         for drop in range(len(cls)):
             if drop and rng.random() < 0.6:
                 continue
-            v = Vals(rng, base_n)
+            v = Vals(rng, base_n, zself_of(cls))
             ctor = ctor_for(rng, v, cls, npos=rng.choice([0, 0, 1]), omit_defaults=False, comparable=comparable, hashable=rng.random() < 0.4)
             out.append(finish(cls, ctor, ['cmp', drop, twin(v, ctor, drop, ch)], v,
                               f"cmp{'-ord' if comparable else ''}/{shape_tag}"))
     # twin built with defaults on both sides (factories produce equal values, plain defaults the same object)
-    v = Vals(rng, base_n)
+    v = Vals(rng, base_n, zself_of(cls))
     ctor = ctor_for(rng, v, cls, comparable=comparable, hashable=rng.random() < 0.4)
     out.append(finish(cls, ctor, ['cmp', 0, twin(v, ctor, 0)], v, f'cmp-defaults/{shape_tag}'))
     return out
@@ -576,6 +685,74 @@ def hashmut_cases(rng, shapes, opts_list):
     return out
 
 
+def frozen_nested_values(v, zself=None):
+    """every shape of a value that holds an instance of a @frozen_dataclass class: the instance holding a list / dict / set / an object with
+    a list, instances of different classes inside each other (depth 2 and 3), the instance inside a tuple / list / dict value, aliased twice,
+    hashable instances as dict key / frozenset member / set member, an instance with nothing mutable behind it, and — where the class
+    under test allows it (`zself_of`) — an instance of the class under test itself"""
+    def z(cid, *items):
+        ident = v.fresh()
+        return ['z', ident, list(items), cid]
+
+    def box(t, *items):
+        ident = v.fresh()
+        return [t, ident, list(items)]
+    one, none, ka = ['i', 1], ['a'], ['s', [107]]
+    shared = z(10, box('l', one))
+    fam = [z(10, box('l', one)),                                                   # Z10([1])
+           z(10, box('d', ka, one)),                                               # Z10({'k': 1})
+           z(12, box('e', one), none),                                             # Z12({1}, None)
+           z(11, z(10, box('l')), none),                                           # Z11(Z10([]), None)
+           z(12, one, z(11, box('d', ka, box('l')), z(10, box('e')))),             # depth 3, three classes
+           box('t', z(10, box('l', one)), one),                                    # (Z10([1]), 1)
+           box('l', z(11, box('d', one, box('l')), one)),                          # [Z11({1: []}, 1)]
+           box('d', ka, z(12, box('e', one), none)),                               # {'k': Z12({1}, None)}
+           z(10, box('o', box('l', one))),                                         # Z10(obj holding a list)
+           box('t', shared, shared),                                               # one instance referenced twice
+           box('d', z(10, one), box('l', one)),                                    # hashable instance as dict key
+           box('f', z(11, one, ['s', [97]])),                                      # … in a frozenset
+           box('e', z(12, one, none)),                                             # … in a set
+           z(10, one),                                                             # nothing mutable behind it
+           box('f', z(10, box('o', box('l')))),                                    # hashable all the way down, yet a list behind it
+           box('t', z(11, box('t', box('l', one)), box('f', one)))]                # tuple / frozenset inside the instance
+    if zself:
+        cid, ar = zself
+        fam.append(z(cid, box('l', one), *[one] * (ar - 1)))                       # K(f0=[1], …): the class under test itself
+        fam.append(box('t', z(cid, *([none] * (ar - 1) + [z(10, box('d', ka, box('e')))]))))
+        fam.append(z(10, z(cid, *[one] * ar)))
+    return fam
+
+
+def frozen_nested_cases(rng, shapes, opts_list, rounds=2):
+    """directed: values holding nested frozen-dataclass instances in every field position x options x shapes x every subset of fields to
+    replace x both methods (1 field: every value of the family; 2..3 fields: the family rotates through the positions)"""
+    out = []
+    k = 0
+    for opts in opts_list:
+        for shape in shapes:
+            for nf in (1, 2, 3):
+                v = Vals(rng, 0)
+                cls = mk_class(rng, v, nf, ['req'] * nf, opts, shape, opts)
+                zs = zself_of(cls)
+                st = f"{shape}/s{int(opts[0])}o{int(opts[1])}k{int(opts[2])}"
+                names = [n for (n, f, kwo) in resolved(cls) if f['init']]
+                subsets = []
+                for m in range(len(names) + 1):
+                    subsets += list(itertools.combinations(names, m))
+                base_n = v.n
+                nfam = len(frozen_nested_values(Vals(rng, base_n), zs))
+                for sub in subsets:
+                    for deep in (False, True):
+                        for rnd in range(nfam if nf == 1 else rounds):
+                            v = Vals(rng, base_n, zs)
+                            fam = frozen_nested_values(v, zs)
+                            ctor = {'pos': [], 'kw': [[n, fam[(k + 7 * i) % len(fam)]] for i, n in enumerate(names)]}
+                            k += 1
+                            kw = [[n, rng.choice(frozen_nested_values(v, zs))] for n in sub]
+                            out.append(finish(cls, ctor, ['copy', deep, kw], v, f'copy-frozen-nested/{st}'))
+    return out
+
+
 def invalid_defs(rng):
     """near misses at class-definition time"""
     out = []
@@ -622,12 +799,14 @@ def cases(rng, tier):
     out = invalid_defs(rng)          # (the repaired regions' failing inputs live in harness/corpus/C11.jsonl, see corpus_seed)
     if tier == 'quick':
         out += hashmut_cases(rng, SHAPES, [(False, False, True), (True, True, False)])
+        out += frozen_nested_cases(rng, SHAPES, [(False, False, True), (True, False, False), (True, True, True)])
         out += grid(rng, [1, 2, 3], SHAPES[:3], 2)
         out += grid(rng, [2, 3], SHAPES[3:], 1)
         out += grid(rng, [4, 5], SHAPES, 1)[::3]
         out += kinds_grid(rng, [1, 2], SHAPES[:3])
     else:
         out += hashmut_cases(rng, SHAPES, OPTS)
+        out += frozen_nested_cases(rng, SHAPES, OPTS, rounds=4)
         out += grid(rng, [1, 2, 3], SHAPES, 12, full=True)
         out += grid(rng, [4, 5], SHAPES, 4, full=True)
         out += kinds_grid(rng, [1, 2, 3], SHAPES)
@@ -635,7 +814,7 @@ def cases(rng, tier):
 
 
 def search(rng, tier, near):
-    return hashmut_cases(rng, SHAPES, OPTS) + grid(rng, [1, 2, 3], SHAPES, 2, full=True)
+    return frozen_nested_cases(rng, SHAPES, OPTS) + hashmut_cases(rng, SHAPES, OPTS) + grid(rng, [1, 2, 3], SHAPES, 2, full=True)
 
 
 # ------------------------------------------------------------------ implementation side
@@ -650,7 +829,7 @@ def fname(n):
 
 
 def module_source(cls):
-    lines = ['import dataclasses', 'from typing import Any', 'from pedantic import frozen_dataclass', '']
+    lines = ['import dataclasses', 'from typing import Any', 'from pedantic import frozen_dataclass', ''] + ZSOURCE
     for i in range(len(cls) - 1, -1, -1):
         l = cls[i]
         base = f"(K{cls[i + 1]['cid']})" if i + 1 < len(cls) else ''
@@ -682,6 +861,18 @@ def module_source(cls):
     return '\n'.join(lines)
 
 
+class LazyDefaults:
+    """DV['<cid>_<field>'] inside a generated class body: the default object is built when the class body asks for it, i.e. after the
+    frozen helper classes of the module exist (a default may be an instance of one of them); one object per key"""
+
+    def __init__(self):
+        self.terms = {}
+
+    def __getitem__(self, key):
+        term, memo = self.terms[key]
+        return build(term, memo)          # memoised by identity in the module's memo
+
+
 def get_module(cls):
     key = json.dumps(cls, sort_keys=True)
     if key in _MODS:
@@ -694,14 +885,14 @@ def get_module(cls):
         f.write(module_source(cls))
     spec = importlib.util.spec_from_file_location(name, path)
     mod = importlib.util.module_from_spec(spec)
-    memo, dv, fa = {}, {}, {}
+    memo, dv, fa = {'__mod__': mod, '__cls__': cls}, LazyDefaults(), {}
     for l in cls:
         for f in l['own']:
             key2 = f"{l['cid']}_{f['n']}"
             if f['d'][0] == 'value':
-                dv[key2] = build(f['d'][1], memo)
+                dv.terms[key2] = (f['d'][1], memo)
             elif f['d'][0] == 'factory':
-                fa[key2] = (lambda t: (lambda: build(t, {})))(f['d'][1])
+                fa[key2] = (lambda t: (lambda: build(t, {'__mod__': mod, '__cls__': cls})))(f['d'][1])
     mod.DV, mod.FA, mod.J = dv, fa, _J
     entry = {'err': None, 'mod': mod, 'memo': memo}
     try:
@@ -732,10 +923,15 @@ def same(a, b):
 
 
 def mut_ids(v, acc=None):
-    """id() of every mutable object — list / dict / set / instance of the plain class — reachable from v (through tuples and frozensets too)"""
+    """id() of every mutable object — list / dict / set / instance of the plain class — reachable from v (through tuples, frozensets and
+    instances of frozen dataclasses too)"""
     if acc is None:
         acc = {}
-    if isinstance(v, Plain):
+    if is_frozen_inst(v):
+        # not mutable itself, but whatever its fields (and other attributes) hold is reachable through it
+        for x in frozen_items(v):
+            mut_ids(x, acc)
+    elif isinstance(v, Plain):
         if id(v) in acc:
             return acc
         acc[id(v)] = v
@@ -771,6 +967,8 @@ def canon(v):
         return ['f', sorted((canon(x) for x in v), key=json.dumps)]
     if isinstance(v, Plain):
         return ['o', type(v).__name__, [[k, canon(x)] for k, x in sorted(vars(v).items())]]
+    if is_frozen_inst(v):
+        return ['z', type(v).__name__, [[f.name, canon(getattr(v, f.name, None))] for f in dataclasses.fields(v)]]
     return [type(v).__name__, v]
 
 
@@ -858,8 +1056,18 @@ def tri(f):
 
 def run_cmp(mod, cls, a, drop, ctor2, memo):
     k2 = getattr(mod, f"K{cls[drop]['cid']}")
+    pos2 = [build(j, memo) for j in ctor2['pos']]
+    kw2 = {fname(n): build(j, memo) for n, j in ctor2['kw']}
+    # a short-lived instance of the same class with other field values is hashed and dropped first: what the instances made afterwards
+    # report (hash, ==) must not depend on objects that no longer exist (CPython hands the freed memory to the next instance)
     try:
-        b = k2(*[build(j, memo) for j in ctor2['pos']], **{fname(n): build(j, memo) for n, j in ctor2['kw']})
+        t = k2(*[-7 for _ in pos2], **{n: -7 for n in kw2})
+        hash(t)
+        del t
+    except BaseException:
+        pass
+    try:
+        b = k2(*pos2, **kw2)
     except BaseException as e:
         return {'ctor2': exc_name(e)}
 
@@ -897,9 +1105,12 @@ def run_one(case):
     out['fields'] = [[int(f.name[1:]), f.init, f.compare, f.kw_only] for f in fl]
     allnames = [f.name for f in fl]
     memo = dict(ent['memo'])
+    # the arguments are built first: building a nested instance of the class under test runs its __post_init__ / validate_types
+    apos = [build(j, memo) for j in c['ctor']['pos']]
+    akw = {fname(n): build(j, memo) for n, j in c['ctor']['kw']}
     del _J[:]
     try:
-        inst = k(*[build(j, memo) for j in c['ctor']['pos']], **{fname(n): build(j, memo) for n, j in c['ctor']['kw']})
+        inst = k(*apos, **akw)
         out['ctor'] = 'ok'
     except BaseException as e:
         out['ctor'] = exc_name(e)
